@@ -1145,6 +1145,120 @@ fn run_double_crash(cx: &mut Ctx, cfg: Cfg, word1: &[Op], cont: &[Op]) {
     rmrf(&live2);
 }
 
+/// C09 over FAULTED histories: one injected failure (EIO) at a mutating call of a history under
+/// sync=always, the rest of the history, then power is lost after each later acknowledgement with
+/// every byte not yet forced to stable storage gone (every file back to its last completed fsync).
+/// Every acknowledged set / delete must still read; the failed operation may or may not have happened.
+fn run_fault_power(cx: &mut Ctx, cfg: Cfg, word: &[Op]) {
+    let base = record(cfg, word, &cx.live, None);
+    if base.open_failed.is_some() || base.results.iter().any(|r| !r.starts_with("ok")) {
+        return; // reported elsewhere
+    }
+    let first_begin = base.log.iter().position(|c| matches!(c, Call::Mark(m) if m == "begin:0")).unwrap_or(0);
+    let npos = base.log.iter().skip(first_begin).filter(|c| c.is_mutating()).count();
+    for pos in 1..=npos {
+        let rec = record(cfg, word, &cx.live, Some((pos, FaultKind::Errno(libc::EIO))));
+        let Some(fo) = rec.fault_op else { continue };
+        if rec.open_failed.is_some() {
+            continue;
+        }
+        cx.sh.transitions += 1;
+        // power-loss moments: right after the failed operation returned, and after each later operation
+        let mut moments: Vec<(usize, usize)> = vec![]; // (log position, number of operations completed)
+        let mut done = 0usize;
+        for (i, c) in rec.log.iter().enumerate() {
+            if let Call::Mark(m) = c {
+                if m.starts_with("begin:") {
+                    let k: usize = m[6..].parse().unwrap_or(0);
+                    if k > fo {
+                        moments.push((i, k));
+                    }
+                    done = k;
+                }
+            }
+        }
+        let _ = done;
+        moments.push((rec.log.len(), rec.results.len()));
+        for (upto, ops_done) in moments {
+            let pre = &rec.log[..upto];
+            // model: acknowledged operations in order, failed ones (not superseded) may have happened
+            let mut m = Kv::new();
+            let mut maybe: Vec<Op> = vec![];
+            for (i, op) in word.iter().enumerate().take(ops_done.min(rec.results.len())) {
+                if rec.results[i].starts_with("ok") {
+                    apply(&mut m, *op);
+                    maybe.retain(|f| op_key(*f) != op_key(*op) || op_key(*op).is_none());
+                } else {
+                    maybe.push(*op);
+                }
+            }
+            // every file back to its last completed fsync
+            let mut len: BTreeMap<String, usize> = BTreeMap::new();
+            let mut synced: BTreeMap<String, usize> = BTreeMap::new();
+            for c in pre {
+                match c {
+                    Call::Create { path, .. } => {
+                        len.insert(path.clone(), 0);
+                        synced.insert(path.clone(), 0);
+                    }
+                    Call::Write { path, data } => {
+                        if let Some(l) = len.get_mut(path) {
+                            *l += data.len();
+                        }
+                    }
+                    Call::Fsync { path } => {
+                        if let Some(l) = len.get(path) {
+                            synced.insert(path.clone(), *l);
+                        }
+                    }
+                    Call::Unlink { path } => {
+                        len.remove(path);
+                        synced.remove(path);
+                    }
+                    _ => {}
+                }
+            }
+            let cut: BTreeMap<String, usize> = len.iter().filter(|(p, l)| synced[*p] < **l).map(|(p, _)| (p.clone(), synced[p])).collect();
+            let files = materialize(pre, &cut);
+            write_dir(&cx.rdir, &files);
+            cx.sh.evaluations += 1;
+            let mut fp = format!("fp|{:?}|", cfg).into_bytes();
+            for (n, bts) in &files {
+                fp.extend_from_slice(n.as_bytes());
+                fp.extend_from_slice(&fnv(&strip_tstamps(n, bts)).to_le_bytes());
+            }
+            cx.sh.states.insert(fnv(&fp));
+            cx.sh.nontrivial.insert(fnv(&fp));
+            let at = json!({"fault_at_mutating_call": pos, "failed_op": fo, "power_lost_after_ops": ops_done, "cut": cut});
+            let r = recover_in_child(&cx.rdir, cfg, max_id_in(pre), 1);
+            let verdict: Option<(String, String)> = match &r {
+                Err(e) => Some((if e.contains("hang") { "recovery-hangs".into() } else { "recovery-aborts-the-process".into() }, e.clone())),
+                Ok(rv) => {
+                    if let Some(e) = &rv.error {
+                        Some((if e.contains("PANIC") { "recovery-panics".into() } else { "directory-cannot-be-opened".into() }, e.clone()))
+                    } else {
+                        rv.reads.first().and_then(|rd| judge_reads(rd, &m, &maybe))
+                    }
+                }
+            };
+            cx.sh.outcome(match &verdict {
+                Some((c, _)) => format!("faulted-power:{}", c),
+                None => "faulted-power:ok".into(),
+            });
+            if let Some((class, msg)) = verdict {
+                if std::env::var("VH_DEBUG_LOG").is_ok() {
+                    eprintln!("LOG: {:?}", rec.log.iter().map(|c| c.short()).collect::<Vec<_>>());
+                }
+                cx.sh.violate(Violation {
+                    class: format!("{}:{}[after-a-failed-call]", cx.prop, class),
+                    msg: format!("{} | {} under {:?}: mutating call {} failed with EIO in op {} ({} -> {}), power lost after {} operations with everything unsynced gone {:?}; results {:?}; directory after the loss {:?}", msg, show_word(word), cfg, pos, fo, word[fo].show(), rec.results[fo], ops_done, cut, rec.results, files.iter().map(|(n, b)| format!("{}:{}", n, b.len())).collect::<Vec<_>>()),
+                    case: case_json("faultpower", &cfg, word, at),
+                });
+            }
+        }
+    }
+}
+
 /// (first history, continuation) pairs of the double-crash enumeration.
 fn double_crash_pairs(tier: Tier) -> Vec<(Vec<Op>, Vec<Op>)> {
     let a1 = Op::Set(0, 0);
@@ -1517,6 +1631,49 @@ pub fn worker(job: &Job) -> Shard {
             }
         }
     }
+    if mode == "power" && !sh.capped {
+        // C09 over faulted histories (no reopen inside them: the faulted run is recorded in-process)
+        let al = [Op::Set(0, 0), Op::Set(0, 1), Op::Set(1, 0), Op::Set(1, 4), Op::Del(0), Op::Merge];
+        let mut fwords = words_upto(&al, job.tier.pick(3, 4));
+        fwords.retain(|w| !w.is_empty());
+        if job.tier == Tier::Quick {
+            let wr = [Op::Set(0, 0), Op::Set(0, 1), Op::Set(1, 0), Op::Set(1, 4), Op::Del(0)];
+            for x in wr {
+                for y in wr {
+                    fwords.push(vec![x, y, Op::Merge, Op::Merge]);
+                    fwords.push(vec![x, Op::Merge, y, Op::Merge]);
+                }
+            }
+        }
+        let mut fcfgs = vec![];
+        for mfs in [0u64, 27, 60] {
+            for thr in [Thr::All, Thr::Dead, Thr::Size27] {
+                let mut c = Cfg::new(mfs, thr, 1);
+                c.sync_always = true;
+                fcfgs.push(c);
+            }
+        }
+        let mut cx = Ctx { sh: &mut sh, prop: &job.prop, live: scratch.join("live"), rdir: scratch.join("rec") };
+        let mut k = 0usize;
+        'fp: for cfg in &fcfgs {
+            for w in &fwords {
+                k += 1;
+                if k % job.nshards != job.shard {
+                    continue;
+                }
+                if t0.elapsed().as_secs() > job.deadline_s {
+                    cx.sh.capped = true;
+                    cx.sh.notes.insert("time cap hit in the faulted-history pass".into());
+                    break 'fp;
+                }
+                if k % 64 == job.shard {
+                    job.progress(&case_json("faultpower", cfg, w, json!(null)));
+                }
+                run_fault_power(&mut cx, *cfg, w);
+                cx.sh.count("faulted-power-workloads", 1);
+            }
+        }
+    }
     if mode == "crash" && !sh.capped {
         // hundreds of keys in one merge (one configuration: everything in one output file): the hint
         // writer flushes its 8 KiB buffer in the middle of records, the merge issues hundreds of
@@ -1572,6 +1729,7 @@ pub fn replay(prop: &str, case: &Value) -> Vec<Violation> {
         let mut cx = Ctx { sh: &mut sh, prop, live: scratch.join("live"), rdir: scratch.join("rec") };
         match mode.as_str() {
             "crash" => run_crash(&mut cx, cfg, &word, false, false),
+            "faultpower" => run_fault_power(&mut cx, cfg, &word),
             "double" => run_double_crash(&mut cx, cfg, &word, &word_from_json(&case["cont"]).unwrap_or_default()),
             "power" => run_crash(&mut cx, cfg, &word, true, true),
             "fault" => run_fault(&mut cx, cfg, &word, false),
